@@ -97,6 +97,14 @@ func (ex *exec) fmtInt(t *Term, signed bool) value {
 		}
 		return fmt.Sprint(t.U)
 	}
+	if signed && isNat(t) {
+		// a natural number known to be below 2^(w-1) prints like an unsigned one
+		if n := t.Args[0]; n.Op == "var" {
+			if ub, ok := ex.ubounds[n]; ok && ub < uint64(1)<<uint(t.S.W-1) {
+				signed = false
+			}
+		}
+	}
 	if !signed {
 		n := tBV2Int(t)
 		s := tIntToStr(n)
